@@ -838,6 +838,11 @@ pub fn c18(c: &mut Ctx, b: &Budget) {
                 other => c.check("event-roundtrip", false, "event-roundtrip", || format!("{:?}", other.map(|r| r.map(|_| ()).map_err(|e| e.to_string())))),
             }
         }
+        // the one-line summary names the content of this event (and does not panic for any note / date)
+        match guarded(|| ev.summary()) {
+            Ok(sm) => c.check("event-summary", sm.contains(&format!("content {}", i)), "event-summary", || sm.clone()),
+            Err(site) => c.check("no-panic", false, "event-summary", || site),
+        }
         let wrong = eenv.replace_subject(Envelope::new(CBOR::to_tagged_value(40004u64, id)));
         c.check("event-rejects-wrong-tag", Event::<String>::try_from(wrong.clone()).is_err(), "event-accepts-wrong-tag", || shape(&wrong));
         c.end();
